@@ -264,6 +264,14 @@ ircam_write_header (SF_PRIVATE *psf, int UNUSED (calc_length))
 
 	samplerate = psf->sf.samplerate ;
 
+	/*
+	**	Rates from 2^31 - 64 up are rounded to 2^31 by the conversion to float
+	**	and 2^31 does not fit the int the reader converts it back to. Store the
+	**	largest float below 2^31 instead.
+	*/
+	if (samplerate > 2147483520.0f)
+		samplerate = 2147483520.0f ;
+
 	switch (psf->endian)
 	{	case SF_ENDIAN_BIG :
 			psf_binheader_writef (psf, "Emf", BHWm (IRCAM_02B_MARKER), BHWf (samplerate)) ;
